@@ -66,6 +66,9 @@ Forms == [
   closure2     |-> <<"|", "a", ",", "b", "|", "a", "+", "b">>,
   moveclosure  |-> <<"move", "|", "a", ",", "b", "|", "a">>,
   \* closures introduced by other keywords: the `|` after `async` / `async move` opens a parameter list as well
+  \* a closure with a return type, a cast to a fn pointer: the type after `->` has generic arguments
+  closureret   |-> <<"|", "a", "|", "-", ">", "M", "<", "K", ",", "V", ">", "G{">>,
+  castfnret    |-> <<"x", "as", "fn", "G(", "-", ">", "M", "<", "K", ",", "V", ">">>,
   asyncclosure |-> <<"async", "|", "a", ",", "b", "|", "a">>,
   asyncmove    |-> <<"async", "move", "|", "a", ",", "b", "|", "a">>,
   less         |-> <<"a", "<", "b">>,
@@ -93,6 +96,9 @@ At(ts, i) == IF i >= 1 /\ i <= Len(ts) THEN ts[i] ELSE "EOF"
 \* against the real scanner); repaired by a `fix:` commit in /repo.
 CastFix  == TRUE
 ArrowFix == TRUE
+\* FALSE before the repair that made `->` (a closure's return type, a fn pointer's) start a type, and let the type after
+\* `as` contain a fn pointer's argument list and arrow: `|x| -> M<K, V> { .. }`, `x as fn(A) -> M<K, V>` were split
+ArrowTyFix == TRUE
 
 \* balanced_pair: cursor right after the first `open`; returns the index after the matching
 \* `close`, 0 if the input ends first (`c.token_tree()?`).  "-" ">" (an arrow) is skipped as a
@@ -115,6 +121,8 @@ CastTail(ts, i) ==
     IN  IF t = "::" THEN CastTail(ts, i + 1)
         ELSE IF g # 0 THEN CastTail(ts, g)
         ELSE IF t \in {"&", "*"} \/ t \in TypeIdents THEN CastTail(ts, i + 1)
+        ELSE IF ArrowTyFix /\ t = "G(" THEN CastTail(ts, i + 1)
+        ELSE IF ArrowTyFix /\ t = "-" /\ At(ts, i + 1) = ">" THEN CastTail(ts, i + 2)
         ELSE i
 
 \* one iteration of take_until1's `alt[...]` at a position that is not a comma
@@ -124,7 +132,8 @@ StepEnd(ts, i) ==
         b == IF b0 # 0 /\ At(ts, b0) = "::" THEN b0 + 1 ELSE 0
         c == IF ts[i] = "|" THEN Bal(ts, i + 1, "|", "|", 1) ELSE 0
         d == IF CastFix /\ ts[i] = "as" THEN CastTail(ts, i + 1) ELSE 0
-    IN  IF a # 0 THEN a ELSE IF b # 0 THEN b ELSE IF c # 0 THEN c ELSE IF d # 0 THEN d ELSE i + 1
+        e == IF ArrowTyFix /\ ts[i] = "-" /\ At(ts, i + 1) = ">" THEN CastTail(ts, i + 2) ELSE 0
+    IN  IF a # 0 THEN a ELSE IF b # 0 THEN b ELSE IF c # 0 THEN c ELSE IF d # 0 THEN d ELSE IF e # 0 THEN e ELSE i + 1
 
 RECURSIVE ScanExpr(_, _)
 ScanExpr(ts, i) == IF i > Len(ts) \/ ts[i] = "," THEN i ELSE ScanExpr(ts, StepEnd(ts, i))
@@ -180,7 +189,7 @@ DocSplit(args) == DocFrom(args, 1, 1)
 (* (KD1 `x as M<K, V>` and KD3 `f::<fn() -> B, A>()` were repaired.)       *)
 (***************************************************************************)
 KD1(args) == ~CastFix /\ \E j \in 1..Len(args) : args[j].form = "castgeneric2"
-BarForms == {"binor", "binor2", "oror", "closure0", "closure1", "closure2", "moveclosure", "asyncclosure", "asyncmove"}
+BarForms == {"binor", "binor2", "oror", "closure0", "closure1", "closure2", "moveclosure", "asyncclosure", "asyncmove", "closureret"}
 KD2(args) == \E j \in 1..Len(args) : args[j].form \in {"binor", "binor2"}
                /\ \E k \in 1..Len(args) : k # j /\ args[k].form \in BarForms
 KD3(args) == ~ArrowFix /\ \E j \in 1..Len(args) : args[j].form = "turbofnptr2"
